@@ -84,12 +84,16 @@ func (e *Exec) runTop() {
 		gp := e.globalPtr(g).(*PtrV)
 		e.ghostObj = gp.Ref.Obj
 	}
-	for _, p := range fn.Params {
+	for i, p := range fn.Params {
 		v := e.freshValS(s, p.Type(), "p."+p.Name())
 		if pv, ok := v.(*PtrV); ok {
-			// pointer parameters are assumed non-nil and pairwise separate
-			pv.Nil = False
-			e.note("pointer parameters are non-nil and point to pairwise disjoint objects")
+			// a pointer receiver is assumed non-nil; other pointer parameters may be nil unless the contract
+			// requires otherwise. Distinct pointer parameters point to disjoint objects (assumption).
+			if i == 0 && fn.Signature.Recv() != nil {
+				pv.Nil = False
+				e.note("pointer receivers are non-nil")
+			}
+			e.note("distinct pointer parameters point to pairwise disjoint objects")
 		}
 		f.env[p] = v
 		e.paramVals = append(e.paramVals, v)
